@@ -1,7 +1,7 @@
 """C04: history + executable model monitor for the M-container (DESIGN.md section 4)."""
 from ._containers import make
 
-TIERS = {"quick": 400, "thorough": 6000}
+TIERS = {"quick": 1200, "thorough": 20000}
 WATCHDOG_S = {"quick": 900, "thorough": 7200}
 RULE = ("one case = one generated history of 5-40 public mutating calls (every 30th thorough case 150-300) on a fresh "
         "container; after every call the full public observation is checked against the transition relation of the "
